@@ -19,6 +19,8 @@ pub enum Src {
     Windows2(Expr),
     Map(Box<Src>, syn::ExprClosure),
     Skip(Box<Src>, Expr),
+    /// `v.drain(..)`: every element by value, `v` is empty afterwards
+    Drain(Expr),
 }
 
 pub fn is_iter_chain(e: &Expr) -> bool {
@@ -53,7 +55,26 @@ pub fn parse_src(e: &Expr) -> Option<Src> {
         Expr::MethodCall(mc) => {
             let m = mc.method.to_string();
             match (m.as_str(), mc.args.len()) {
-                ("iter", 0) => Some(Src::Iter((*mc.receiver).clone())),
+                ("iter", 0) => {
+                    // R-ITER.slice_from: `X[a..].iter()` is `X.iter().skip(a)` preceded by the bounds check of the
+                    // slicing (`a <= X.len()`, emitted as a call of `slice_from_check`, a proof obligation)
+                    if let Expr::Index(ix) = strip_paren(&mc.receiver) {
+                        if let Expr::Range(r) = strip_paren(&ix.index) {
+                            if let (Some(a), None, syn::RangeLimits::HalfOpen(_)) = (&r.start, &r.end, &r.limits) {
+                                let base = &ix.expr;
+                                return Some(Src::Skip(Box::new(Src::Iter((**base).clone())), parse_quote!(slice_from_check(#a, #base.len()))));
+                            }
+                            return None;
+                        }
+                    }
+                    Some(Src::Iter((*mc.receiver).clone()))
+                }
+                // R-ITER.into_iter: consuming iteration over an owned Vec named by a path: items are read out by value
+                // in index order (the element type must be Copy in the verified text; the Vec is not used afterwards)
+                ("into_iter", 0) if matches!(strip_paren(&mc.receiver), Expr::Path(_)) => {
+                    Some(Src::Copied(Box::new(Src::Iter((*mc.receiver).clone()))))
+                }
+
                 ("iter_mut", 0) => Some(Src::IterMut((*mc.receiver).clone())),
                 ("copied", 0) | ("cloned", 0) => Some(Src::Copied(Box::new(parse_src(&mc.receiver)?))),
                 ("enumerate", 0) => {
@@ -173,7 +194,7 @@ impl VisitMut for WinSub {
 
 fn conds(s: &Src, idx: &syn::Ident, out: &mut Vec<Expr>) {
     match s {
-        Src::Iter(r) | Src::IterMut(r) => out.push(parse_quote!(#idx < #r.len())),
+        Src::Iter(r) | Src::IterMut(r) | Src::Drain(r) => out.push(parse_quote!(#idx < #r.len())),
         Src::Windows2(r) => out.push(parse_quote!(#idx + 1 < #r.len())),
         Src::Copied(a) | Src::Enumerate(a) | Src::Map(a, _) | Src::Skip(a, _) => conds(a, idx, out),
         Src::Zip(a, b) => {
@@ -185,7 +206,7 @@ fn conds(s: &Src, idx: &syn::Ident, out: &mut Vec<Expr>) {
 
 fn len_text(s: &Src) -> String {
     match s {
-        Src::Iter(r) | Src::IterMut(r) | Src::Windows2(r) => {
+        Src::Iter(r) | Src::IterMut(r) | Src::Windows2(r) | Src::Drain(r) => {
             let t = quote!(#r).to_string();
             t.replace(" . ", ".").replace(" [", "[").replace("[ ", "[").replace(" ]", "]").replace("& ", "&")
         }
@@ -225,6 +246,7 @@ fn item(rw: &mut Rw, s: &Src, idx: &syn::Ident, stmts: &mut Vec<Stmt>) -> Result
     Ok(match s {
         Src::Iter(r) => parse_quote!(&#r[#idx]),
         Src::IterMut(r) => parse_quote!(&mut #r[#idx]),
+        Src::Drain(r) => parse_quote!(#r[#idx]),
         Src::Copied(a) => {
             let v = item(rw, a, idx, stmts)?;
             match strip_paren(&v) {
@@ -615,7 +637,22 @@ pub fn desugar(rw: &mut Rw, e: &Expr) -> Option<Expr> {
                         Expr::Closure(c) => c.clone(),
                         _ => return None,
                     };
-                    let s = parse_src(&mc.receiver)?;
+                    // R-ITER.drain: `v.drain(..).for_each(f)` (full range, for_each only): f on every element by value in
+                    // index order, then `v.clear()`
+                    let mut drained: Option<Expr> = None;
+                    if let Expr::MethodCall(d) = strip_paren(&mc.receiver) {
+                        if d.method == "drain" && d.args.len() == 1 && ts_str(&d.args[0]).replace(' ', "") == ".." {
+                            drained = Some((*d.receiver).clone());
+                        }
+                    }
+                    let s = match &drained {
+                        Some(v) => Src::Drain(v.clone()),
+                        None => parse_src(&mc.receiver)?,
+                    };
+                    let clear: Vec<Stmt> = match &drained {
+                        Some(v) => vec![parse_quote!(#v.clear();)],
+                        None => vec![],
+                    };
                     let (mk, v, amk) = marker(rw, "for_each", &s);
                     let start: Expr = start_of(&s).unwrap_or_else(|| parse_quote!(0));
                     let idx = format_ident!("__i{}", v);
@@ -631,14 +668,20 @@ pub fn desugar(rw: &mut Rw, e: &Expr) -> Option<Expr> {
                         }
                     };
                     rw.fire("R-ITER.for_each");
+                    // anchor for proof hints after the inlined closure body
+                    let ek_s = format!("endbody iter:for_each#{}", rw.counters.get("iter:for_each").cloned().unwrap_or(0));
+                    rw.events.push(ek_s.clone());
+                    let ek = syn::LitStr::new(&ek_s, Span::call_site());
                     Some(parse_quote!({
                         let mut #idx: usize = #start;
                         while #cond {
                             #mk
                             #(#binds)*
                             #body;
+                            vx_at!(#ek);
                             #idx = #idx + 1;
                         }
+                    #(#clear)*
                     #amk
                     }))
                 }
